@@ -147,7 +147,7 @@ PROPS = {
         "stages": [{"name": "main", "timeout_q": 1500, "timeout_t": 7200}],
         "rule": "cases = clock states: (a) through the export hook VerifLimits: exhaustive grid remaining time 1..4000 ms (thorough 1..20000) x increments {0..200, 1e3..1e9} x both colours, boundary neighbourhoods of 30/60/120/30k/120k/1e6/1e9/1e12, random clocks incl. movetime; "
                 "each case applies exactly the statement's inequalities (hard > 0, hard <= remaining, hard <= remaining-30 when remaining > 30, movetime => soft == hard == movetime) and re-evaluates with 12 variants of the OPPONENT's clock and increment, which must not change anything; "
-                "(b) end to end in synctest virtual time: the real uci.Driver with a blocking mock search; the SoftTime option the mock receives and the exact virtual instant at which Stop closes (the deadline actually armed, also after `go ponder` + `ponderhit`) are judged by the same inequalities "
+                "(b) end to end in synctest virtual time: the real uci.Driver with a blocking mock search; the SoftTime option the mock receives and the exact virtual instant at which Stop closes (the deadline actually armed, also after `go ponder` + `ponderhit`, also while the mock search has the driver's board at an odd ply - side to move flipped - and while the GUI pings `isready` every 7 virtual ms) are judged by the same inequalities "
                 "and must equal the helpers' values for the side to move. distinct_nontrivial = distinct remaining-time values of the exhaustive grid + distinct end-to-end clock states.",
         "assumptions": ["virtual time inside testing/synctest bubbles is exact: no wall-clock quantity enters a verdict", "safety margin is 30 ms as documented in uci.TimeSafetyMargin"],
         "technique": "runtime monitor: inequality oracle over an exhaustive grid through an export hook + end-to-end observation of the armed deadline in synctest virtual time with the real driver",
